@@ -178,11 +178,10 @@ func (ls *listenServer) route(r *core.Msg, slot int32) (string, bool) {
 			pool.AutoBanFlag = false
 			liveSlaves = append(liveSlaves, v.Addr)
 		}
+	}
 
-		if len(liveSlaves) == 0 {
-			continue
-		}
-
+	// pick among all live slaves, not just the first one found
+	if len(liveSlaves) > 0 {
 		return liveSlaves[rand.Intn(len(liveSlaves))], true
 	}
 
